@@ -308,7 +308,14 @@ def reconcile_rule(ctx, F):
                     restricting.append(o.key)
         return out
     srcs = deep(it_o)
-    ctx.check(srcs == {a_i, b_i} and not restricting, 'C18.R4', 'reconcile:union', 'loop ranges over keys(a) U keys(b)',
+    # a hand-written iterator (a crate type with its own `impl Iterator`, e.g. a merge of the two sorted key streams): what it
+    # yields is decided by its `next`, which these rules do not read
+    custom_iter = sorted({o.key for o in it_o if o.kind == 'call' and F.body(str(o.key)) is not None and
+                          any(i['trait'].startswith('std::iter::Iterator') and re.sub(r'<.*$', '', i['self']) in re.sub(r'<.*$', '', F.body(str(o.key)).local_ty(0)) for i in F.impls)})
+    custom_iter += sorted({callee_resolved(nt) for nb, nt in nexts if callee_resolved(nt) and F.body(callee_resolved(nt)) is not None})
+    if custom_iter:
+        ctx.undecided('C18.R4', 'reconcile walks a hand-written iterator (%s): that it yields every path of both sides exactly once, in order, is not decided' % custom_iter[0])
+    ctx.check(custom_iter or (srcs == {a_i, b_i} and not restricting), 'C18.R4', 'reconcile:union', 'loop ranges over keys(a) U keys(b)',
               'reconcile does not iterate over the full union of both sides\' paths (key sources: params %s; restricting adaptors: %s)' % (
                   sorted(srcs), sorted(set(restricting))), loc(b, b.lo))
     for cb, ct in rp:
@@ -392,7 +399,7 @@ def reconcile_rule(ctx, F):
               'reconcile can move on to the next path (or return) without asking reconcile_path about the current one: a path is dropped from the plan by something other than the documented table',
               term_loc(b, skipped) if skipped is not None else loc(b, b.lo))
     # sorted + deduped
-    ctx.check(sorted_unique(b, fl, it_o), 'C18.R4', 'reconcile:sorted-dedup', 'paths sorted and deduplicated before the loop',
+    ctx.check(bool(custom_iter) or sorted_unique(b, fl, it_o), 'C18.R4', 'reconcile:sorted-dedup', 'paths sorted and deduplicated before the loop',
               'reconcile no longer sorts+dedups the union of paths (duplicate decisions for paths on both sides)', loc(b, b.lo))
 
 
